@@ -177,7 +177,7 @@ def stage_getitem_py(ctx, rng, jobs):
             except Exception:      # noqa
                 r, obs = None, "None"
         cases.append("ZC %s %s %s %s" % (common.coq_bool(dbg), natlist(shape), items_lit(items), obs))
-        meta.append({"fn": "_compute_getitem_size", "debug": dbg, "shape": shape, "index": ix.show(items), "observed": r})
+        meta.append({"fn": "_compute_getitem_size", "debug": dbg, "shape": shape, "index": ix.show(items), "observed": r, "items": items})
     jobs.bad("L2size", mk_shards("l2size", "size_case", cases, "bad_size"), lambda bad, meta=meta: report_lib(ctx, bad, meta, "compute_getitem_size"))
     stats["l2_size_cases"] = len(cases)
     stats["l2_size_raises"] = sum(1 for m in meta if m["observed"] is None)
@@ -188,7 +188,7 @@ def stage_getitem_py(ctx, rng, jobs):
         items = gen_norm_index(rng, shape, valid=True)
         r = bool(G._is_tensor_index_moved_to_start(to_py_norm(items)))
         cases.append("MC %s %s" % (items_lit(items), common.coq_bool(r)))
-        meta.append({"fn": "_is_tensor_index_moved_to_start", "index": ix.show(items), "observed": r})
+        meta.append({"fn": "_is_tensor_index_moved_to_start", "shape": shape, "index": ix.show(items), "observed": r, "items": items})
     jobs.bad("L2moved", mk_shards("l2moved", "moved_case", cases, "bad_moved"), lambda bad, meta=meta: report_lib(ctx, bad, meta, "is_moved_to_start"))
     stats["l2_moved_cases"] = len(cases)
     stats["l2_moved_true"] = sum(1 for m in meta if m["observed"])
@@ -213,17 +213,35 @@ def stage_getitem_py(ctx, rng, jobs):
         except Exception:      # noqa
             r, obs = None, "None"
         cases.append("VC %s %s %s" % (natlist(shape), items_lit(items), obs))
-        meta.append({"fn": "_convert_indices_to_tensors", "shape": shape, "index": ix.show(items), "observed": r})
+        meta.append({"fn": "_convert_indices_to_tensors", "shape": shape, "index": ix.show(items), "observed": r, "items": items})
     jobs.bad("L2conv", mk_shards("l2conv", "conv_case", cases, "bad_conv"), lambda bad, meta=meta: report_lib(ctx, bad, meta, "convert_indices_to_tensors"))
     stats["l2_convert_cases"] = len(cases)
     return stats
 
 
+TRIAGE = None      # set by harness/c03.py: (ctx, meta_case) -> True when a concrete failing input was reported
+
+
 def report_lib(ctx, bad, meta, model_fn):
-    for b in (bad or [])[:3]:
+    bad = bad or []
+    # triage with the independent oracle: the index of the disagreeing case is run through the real __getitem__ of a
+    # DenseLinearOperator and compared with torch indexing of the dense tensor -> a concrete failing input if it differs
+    found = 0
+    if TRIAGE is not None:
+        for b in bad[:60]:
+            if found >= 3:
+                break
+            try:
+                if TRIAGE(ctx, meta[b]):
+                    found += 1
+            except Exception:      # noqa  triage is best effort; the disagreement itself is reported below
+                pass
+    for b in bad[:3]:
         # a helper function of the library no longer computes what its transcription computes: the theorems about
-        # the transcription do not speak about this code any more (whether an index then fails is decided by layer L4)
-        ctx.violation({"kind": "model-implementation-disagreement", "layer": "L2/L3", "case": meta[b],
+        # the transcription do not speak about this code any more (whether an index then fails is decided by the triage
+        # above and by layer L4)
+        m = {k: v for k, v in meta[b].items() if k != "items"}
+        ctx.violation({"kind": "model-implementation-disagreement", "layer": "L2/L3", "case": m,
                        "correspondence": "coq/C03/Model.v %s vs the real function" % model_fn}, no_input=True)
 
 
